@@ -86,7 +86,12 @@ def build_lines(prog):
         if cap["clear"]:
             t += cap["hold"]
             c = []
-            _ctrl(c, [R.MISC["EDM"]], plan, dbl)
+            if cap.get("clear_by") == "eoc" and plan == "none":
+                # taken off the screen by a second End-Of-Caption (swaps in the empty memory),
+                # sent after some null padding; the next load must erase non-displayed memory
+                c = ["8080"] * cap.get("pad", 1) + [R.MISC["EOC"]]
+            else:
+                _ctrl(c, [R.MISC["EDM"]], plan, dbl)
             lines.append((t, c))
             t += len(c)
         else:
@@ -283,6 +288,18 @@ def caption_strategy(first):
             top = draw(st.integers(1, 16 - nrows))
             rows_idx = list(range(top, top + nrows))
         rows = [draw(row_strategy(r)) for r in rows_idx]
+        if nrows >= 2 and draw(st.integers(0, 5)) == 0:
+            # rows that repeat one another: the same text again, or the same text followed by a
+            # mid-row code and more text (a refrain, "la" / "la la")
+            import copy
+            base = draw(st.sampled_from([[["c", "la"]], [["c", "no"], ["c", "w "]], [["c", "ab"], ["c", "cd"]]]))
+            i, j = 0, draw(st.integers(1, nrows - 1))
+            for k in (i, j):
+                rows[k].update(indent=0, to=0, pit=False, color=None)
+            rows[i]["items"] = copy.deepcopy(base)
+            tail = draw(st.sampled_from([[], [["mid", True, False, 0], ["c", "x "]], [["mid", False, False, 0], ["c", "yz"]],
+                                         [["c", " x"]]]))
+            rows[j]["items"] = copy.deepcopy(base) + copy.deepcopy(tail)
         return {"gap": draw(st.integers(0 if first else 8, 60)), "enm": draw(st.booleans()),
                 "rows": rows, "edm": draw(st.sampled_from(["none", "none", "inline"])),
                 "eoc_line": draw(st.integers(0, 3)) == 0, "eoc_gap": draw(st.integers(1, 10)),
